@@ -94,9 +94,9 @@ class Abstraction:
                 for i, n in enumerate(r.get("pipeline_spec_canonical", {}).get("nodes", [])):
                     self.nodes.setdefault(r["run_id"], {})[n["node_uuid"]] = i + 1
                 if r.get("run_space_launch_id"):
-                    self._launch(r["run_space_launch_id"])
+                    self._launch(self._lkey(r))
             elif t in ("run_space_start", "run_space_end"):
-                self._launch(r["run_space_launch_id"])
+                self._launch(self._lkey(r))
         for r in records:
             if r["record_type"] == "ser":
                 rid, nid = r["identity"]["run_id"], r["identity"]["node_id"]
@@ -110,15 +110,20 @@ class Abstraction:
     def _run(self, rid):
         self.runs.setdefault(rid, len(self.runs) + 1)
 
-    def _launch(self, lid):
-        self.launches.setdefault(lid, len(self.launches) + 1)
+    @staticmethod
+    def _lkey(r):
+        # a launch is identified by (launch id, attempt): a retry under the same id is another launch
+        return (r["run_space_launch_id"], int(r.get("run_space_attempt") or 1))
+
+    def _launch(self, lkey):
+        self.launches.setdefault(lkey, len(self.launches) + 1)
 
     def rec(self, r) -> Dict[str, Any]:
         t = r["record_type"]
         base = {"t": "", "run": 0, "launch": 0, "nodes": [], "node": 0, "status": ""}
         if t == "pipeline_start":
             base.update(t="ps", run=self.runs[r["run_id"]],
-                        launch=self.launches.get(r.get("run_space_launch_id"), 0),
+                        launch=self.launches.get(self._lkey(r), 0) if r.get("run_space_launch_id") else 0,
                         nodes=sorted(self.nodes[r["run_id"]][n["node_uuid"]] for n in r.get("pipeline_spec_canonical", {}).get("nodes", [])))
         elif t == "ser":
             rid = r["identity"]["run_id"]
@@ -126,9 +131,9 @@ class Abstraction:
         elif t == "pipeline_end":
             base.update(t="pe", run=self.runs[r["run_id"]])
         elif t == "run_space_start":
-            base.update(t="ls", launch=self.launches[r["run_space_launch_id"]])
+            base.update(t="ls", launch=self.launches[self._lkey(r)])
         elif t == "run_space_end":
-            base.update(t="le", launch=self.launches[r["run_space_launch_id"]])
+            base.update(t="le", launch=self.launches[self._lkey(r)])
         return base
 
     def key(self, r) -> Tuple:
@@ -147,10 +152,10 @@ class Abstraction:
                          "missing": sorted(nm[n] for n in v.missing_nodes), "orphans": sorted(nm[n] for n in v.orphan_nodes),
                          "hasStart": bool(v.summary.get("has_start")), "hasEnd": bool(v.summary.get("has_end")),
                          "observed": int(v.summary.get("nodes_observed", 0))})
-        for lid, li in self.launches.items():
-            if agg.get_launch(lid, 1) is None:
+        for (lid, att), li in self.launches.items():
+            if agg.get_launch(lid, att) is None:
                 continue
-            v = agg.finalize_launch(lid, 1)
+            v = agg.finalize_launch(lid, att)
             by = v.summary.get("runs_by_status", {})
             launches.append({"launch": li, "status": v.status, "problems": sorted(v.problems), "total": v.summary.get("runs_total"),
                              "complete": by.get("complete"), "partial": by.get("partial"), "invalid": by.get("invalid")})
@@ -177,6 +182,18 @@ def real_universe(name: str) -> List[Dict[str, Any]]:
         launched = emulate_launch([{"processor": "FloatDataSource"}], [{}])
         launched[1]["pipeline_spec_canonical"] = {"version": 1, "nodes": [], "edges": []}   # run of an unknown spec
         return solo + launched
+    if name == "UA7":
+        # a RETRIED launch: attempt 1 of launch id "nightly" crashed inside its run (no pipeline_end... here: no run_space_end),
+        # attempt 2 under the SAME id completed; the SERs are left out to keep the universe at 7 records
+        a1 = [r for r in emulate_launch([{"processor": "FloatDataSource"}], [{}], launch_id="nightly", attempt=1) if r["record_type"] != "ser"]
+        a2 = [r for r in emulate_launch([{"processor": "FloatDataSource"}], [{}], launch_id="nightly", attempt=2) if r["record_type"] != "ser"]
+        return a1[:-1] + a2
+    if name == "UD6":
+        # the SAME launch (id and attempt) executed twice -- a resubmission under one idempotency key without bumping the
+        # attempt: the first execution was killed after its run, the second completed; both runs carry run_space_index 0
+        a1 = [r for r in emulate_launch([{"processor": "FloatDataSource"}], [{}], launch_id="dup", attempt=1) if r["record_type"] != "ser"]
+        a2 = [r for r in emulate_launch([{"processor": "FloatDataSource"}], [{}], launch_id="dup", attempt=1) if r["record_type"] != "ser"]
+        return a1[:-1] + a2
     raise ValueError(name)
 
 
@@ -260,6 +277,26 @@ def orders_chunk(job):
                     out["viol"].append((f"ingest-many:lazy-stream:{name}",
                                         f"universe {name}: ingest_many(<generator over {len(order)} records>) gives {ab.verdicts(agg2)} "
                                         f"but ingesting the same records one by one gives {ab.verdicts(agg)}", {"universe": name, "order": list(order)}))
+            # ... and a stream that BREAKS after k records (a trace file cut in the middle of a line by a crash: the
+            # decoder raises): what was delivered before the break is what a record-by-record reader has ingested
+            if out["n"] % 7 == 3:
+                k = 1 + (out["n"] // 7) % (len(order) - 1)
+
+                def broken():
+                    for j in order[:k]:
+                        yield records[j]
+                    raise ValueError("Unterminated string starting at: line 1 column 17 (char 16)")
+                agg3, agg4 = TraceAggregator(), TraceAggregator()
+                try:
+                    agg3.ingest_many(broken())
+                except ValueError:
+                    pass
+                for j in order[:k]:
+                    agg4.ingest(records[j])
+                if ab.verdicts(agg3) != ab.verdicts(agg4):
+                    out["viol"].append((f"ingest-many:broken-stream:{name}",
+                                        f"universe {name}: ingest_many over a stream that raises after {k} records leaves {ab.verdicts(agg3)}; "
+                                        f"the {k} delivered records ingested one by one give {ab.verdicts(agg4)}", {"universe": name, "order": list(order), "k": k}))
     return out
 
 
@@ -365,11 +402,11 @@ def check(tier: str) -> int:
                 "sampled for U10 / U9), finalize_all twice after every ingest, verdict compared with TLC's per-subset table; "
                 "impl->spec: recorded histories (prefix / permutation / k-way interleaving / subset of real traces) validated "
                 "by TLC; non-trivial = number of (order, prefix) verdict comparisons")
-    run.assumptions = ["one SER per node (what the runtime emits); launch attempt fixed to 1",
+    run.assumptions = ["one SER per node (what the runtime emits); a launch is identified by (launch id, attempt)",
                        "launch records are produced by driving RunSpaceTraceEmitter/Pipeline exactly as cli._run does"]
     rng = random.Random(core.seed() + 13)
     total_steps = 0
-    for name in ("U6", "U8", "U10", "U9"):
+    for name in ("U6", "U8", "U10", "U9", "UA7", "UD6"):
         res = tlc.run_tlc("MC_Aggregator", f"Aggregator.{name}.check", coverage=True, timeout=900)
         run.add_tlc(res)
         run.require_tlc_ok(res, name)
@@ -383,8 +420,10 @@ def check(tier: str) -> int:
         if keys != set(full):
             raise core.MachineryError(f"{name}: real records {sorted(keys)} do not match the spec universe {sorted(full)}")
         n = len(records)
-        if name == "U6":
+        if name in ("U6", "UA7", "UD6"):
             orders = list(itertools.permutations(range(n)))
+            if name in ("UA7", "UD6") and tier == "quick":
+                orders = rng.sample(orders, 2000)
         elif name == "U8":
             orders = list(itertools.permutations(range(n)))
             if tier == "quick":
